@@ -46,7 +46,8 @@ def key(rec, name):
 
 def main():
     case = {'kind': 'selftest', 'headers': [codes(h) for h in HEADERS], 'rows': ROWS, 'comment': True}
-    (ev, mism, info), = c15.execute_book([case])
+    (evs, mism, info), = c15.execute_book([case])
+    ev = evs[0]
     if info['raised']:
         sys.exit('the real reader raised: ' + info['raised'])
     ok = show('as recorded from the real read_excel', [ev], [])
